@@ -181,7 +181,17 @@ func (p *Prog) lin(v ssa.Value, d int) Lin {
 				return LinAtom("cell:" + pickName(al))
 			}
 			a := p.Eval(p.linFrame, x.X)
-			return LinAtom("F(" + p.PathAtom(a) + ")")
+			atom := p.PathAtom(a)
+			if st, suffix := p.version(atom, p.linWhere(x), false); st != nil {
+				// the only definition that reaches this load: its value
+				if p.linFrame == nil {
+					return p.lin(st.Val, d+1)
+				}
+				return LinAtom("F(" + atom + ")@" + st.Val.Name())
+			} else if suffix != "" {
+				return LinAtom("F(" + atom + ")" + suffix)
+			}
+			return LinAtom("F(" + atom + ")")
 		case token.NOT:
 			return LinAtom("!(" + p.lin(x.X, d+1).String() + ")")
 		}
@@ -212,7 +222,8 @@ func (p *Prog) lin(v ssa.Value, d int) Lin {
 		}
 		if b, ok := x.Call.Value.(*ssa.Builtin); ok && (b.Name() == "len" || b.Name() == "cap") && len(x.Call.Args) == 1 {
 			a := p.Eval(p.linFrame, x.Call.Args[0])
-			return LinAtom(b.Name() + "(" + p.PathAtom(a) + ")")
+			_, suffix := p.version(p.PathAtom(a), p.linWhere(x), true)
+			return LinAtom(b.Name() + "(" + p.PathAtom(a) + ")" + suffix)
 		}
 		if b, ok := x.Call.Value.(*ssa.Builtin); ok && (b.Name() == "min" || b.Name() == "max") {
 			var parts []string
@@ -230,10 +241,11 @@ func (p *Prog) lin(v ssa.Value, d int) Lin {
 		switch t := x.Tuple.(type) {
 		case *ssa.Lookup:
 			m := p.Eval(p.linFrame, t.X)
+			_, suffix := p.version(p.PathAtom(m), p.linWhere(t), true)
 			if x.Index == 0 {
-				return LinAtom("M(" + p.PathAtom(m) + ")[" + p.lin(t.Index, d+1).String() + "]")
+				return LinAtom("M(" + p.PathAtom(m) + ")[" + p.lin(t.Index, d+1).String() + "]" + suffix)
 			}
-			return LinAtom("has(" + p.PathAtom(m) + ")[" + p.lin(t.Index, d+1).String() + "]")
+			return LinAtom("has(" + p.PathAtom(m) + ")[" + p.lin(t.Index, d+1).String() + "]" + suffix)
 		case *ssa.Call:
 			return LinAtom("call:" + p.CalleeName(&t.Call) + "#" + itoa(x.Index) + "@" + t.Name())
 		case *ssa.Next:
@@ -246,7 +258,8 @@ func (p *Prog) lin(v ssa.Value, d int) Lin {
 		}
 	case *ssa.Lookup:
 		m := p.Eval(p.linFrame, x.X)
-		return LinAtom("M(" + p.PathAtom(m) + ")[" + p.lin(x.Index, d+1).String() + "]")
+		_, suffix := p.version(p.PathAtom(m), p.linWhere(x), true)
+		return LinAtom("M(" + p.PathAtom(m) + ")[" + p.lin(x.Index, d+1).String() + "]" + suffix)
 	case *ssa.Phi:
 		if p.inLinPhi == nil {
 			p.inLinPhi = map[*ssa.Phi]bool{}
@@ -783,8 +796,195 @@ func (p *Prog) linAccessor(call *ssa.Call, d int) (Lin, bool) {
 			args[prm] = p.lin(a, d+1)
 		}
 	}
+	saveAt := p.linAt
+	if saveF == nil {
+		p.linAt = call // reads inside the accessor happen at the call site, as far as the caller's writes go
+	}
 	p.linFrame, p.linArgs = fr, args
 	l := p.lin(ret.Results[0], d+1)
 	p.linFrame, p.linArgs = saveF, saveA
+	p.linAt = saveAt
 	return l, true
+}
+
+// linWhere: the instruction of the analysed (outermost) function at which a read happens.
+func (p *Prog) linWhere(in ssa.Instruction) ssa.Instruction {
+	if p.linFrame != nil && p.linAt != nil {
+		return p.linAt
+	}
+	return in
+}
+
+// version makes the atoms of linear forms flow-sensitive. For a read of the location named atom at instruction `at`
+// it looks at the definitions of that location in the same function (stores to the same access path; for containers
+// also element updates, delete, append-stores; calls of library functions that write the same field count as
+// definitions of unknown value). If no definition can reach the read the atom is the entry value (suffix ""). If
+// exactly one store reaches it (and the entry value does not) that store is returned, so that the read takes the
+// stored value. Otherwise the suffix names the set of reaching definitions, which keeps reads before and after a
+// write apart (x.n read after x.n-- is not the x.n read before it).
+func (p *Prog) version(atom string, at ssa.Instruction, container bool) (*ssa.Store, string) {
+	if at == nil || at.Parent() == nil {
+		return nil, ""
+	}
+	fn := at.Parent()
+	key := versionKey{fn, atom, container}
+	defs, ok := p.versionDefs[key]
+	if !ok {
+		defs = p.defsOf(fn, atom, container)
+		if p.versionDefs == nil {
+			p.versionDefs = map[versionKey][]ssa.Instruction{}
+		}
+		p.versionDefs[key] = defs
+	}
+	if len(defs) == 0 {
+		return nil, ""
+	}
+	var reach []int
+	for i, d := range defs {
+		if d == at {
+			continue
+		}
+		var others []ssa.Instruction
+		for j, o := range defs {
+			if j != i {
+				others = append(others, o)
+			}
+		}
+		if p.PathExists(fn, d, Is(at), In(others), nil) {
+			reach = append(reach, i)
+		}
+	}
+	entry := p.PathExists(fn, nil, Is(at), In(defs), nil) || at.Block() == fn.Blocks[0] && !p.PathExists(fn, nil, Is(at), nil, nil)
+	if len(reach) == 0 {
+		return nil, ""
+	}
+	if len(reach) == 1 && !entry && !container {
+		if st, isSt := defs[reach[0]].(*ssa.Store); isSt {
+			return st, ""
+		}
+	}
+	suffix := "@"
+	if entry {
+		suffix += "e"
+	}
+	for _, i := range reach {
+		suffix += "d" + itoa(i)
+	}
+	return nil, suffix
+}
+
+type versionKey struct {
+	fn        *ssa.Function
+	atom      string
+	container bool
+}
+
+// defsOf lists, in block order, the instructions of fn that may change the location named atom.
+func (p *Prog) defsOf(fn *ssa.Function, atom string, container bool) []ssa.Instruction {
+	var field string
+	if i := strings.LastIndex(atom, "."); i >= 0 {
+		field = atom[i+1:]
+	}
+	return AllInstrs(fn, func(in ssa.Instruction) bool {
+		switch x := in.(type) {
+		case *ssa.Store:
+			a := p.Eval(nil, x.Addr)
+			if a.K != KPath {
+				return false
+			}
+			pa := p.PathAtom(a)
+			if pa == atom {
+				return true
+			}
+			// element store into the container
+			return container && strings.HasPrefix(pa, atom+"[")
+		case *ssa.MapUpdate:
+			if !container {
+				return false
+			}
+			a := p.Eval(nil, x.Map)
+			return a.K == KPath && p.PathAtom(a) == atom
+		case *ssa.Call:
+			if b, isB := x.Call.Value.(*ssa.Builtin); isB {
+				if container && (b.Name() == "delete" || b.Name() == "clear") && len(x.Call.Args) > 0 {
+					a := p.Eval(nil, x.Call.Args[0])
+					return a.K == KPath && p.PathAtom(a) == atom
+				}
+				return false
+			}
+			// a library callee that writes a field of this name (on whatever object)
+			if callee := x.Call.StaticCallee(); callee != nil && field != "" && p.IsLib(Canon(callee)) && TransparentCallee(in) == nil {
+				return p.writesField(Canon(callee), field, 0)
+			}
+		}
+		return false
+	})
+}
+
+// writesField: fn (or a library function it calls statically) stores to / updates a field with that name.
+func (p *Prog) writesField(fn *ssa.Function, field string, depth int) bool {
+	k := writesKey{fn, field}
+	if v, ok := p.writesCache[k]; ok {
+		return v
+	}
+	if p.writesCache == nil {
+		p.writesCache = map[writesKey]bool{}
+	}
+	p.writesCache[k] = false // cycles
+	res := false
+	if depth < 6 {
+		for _, b := range fn.Blocks {
+			for _, in := range b.Instrs {
+				switch x := in.(type) {
+				case *ssa.Store:
+					if f := FieldOfAddr(x.Addr); f != "" && strings.HasSuffix(f, "."+field) {
+						res = true
+					}
+					if ia, ok := x.Addr.(*ssa.IndexAddr); ok {
+						if ld, isL := ia.X.(*ssa.UnOp); isL {
+							if f := FieldOfAddr(ld.X); f != "" && strings.HasSuffix(f, "."+field) {
+								res = true
+							}
+						}
+					}
+				case *ssa.MapUpdate:
+					if ld, isL := x.Map.(*ssa.UnOp); isL {
+						if f := FieldOfAddr(ld.X); f != "" && strings.HasSuffix(f, "."+field) {
+							res = true
+						}
+					}
+				case *ssa.Call:
+					if callee := x.Call.StaticCallee(); callee != nil && p.IsLib(Canon(callee)) && Canon(callee) != fn {
+						if p.writesField(Canon(callee), field, depth+1) {
+							res = true
+						}
+					}
+				}
+			}
+		}
+	}
+	p.writesCache[k] = res
+	return res
+}
+
+type writesKey struct {
+	fn    *ssa.Function
+	field string
+}
+
+// FieldAt is the linear form of the field location named path ("w.count") as read at instruction at: the entry value,
+// the value of the only store that reaches at, or a versioned atom (see version).
+func (p *Prog) FieldAt(path string, at ssa.Instruction) Lin {
+	if st, suffix := p.version(path, at, false); st != nil {
+		return p.lin(st.Val, 1)
+	} else if suffix != "" {
+		return LinAtom("F(" + path + ")" + suffix)
+	}
+	return LinAtom("F(" + path + ")")
+}
+
+// LenAt is len(path) as read at instruction at.
+func (p *Prog) LenAt(path string, at ssa.Instruction) Lin {
+	_, suffix := p.version(path, at, true)
+	return LinAtom("len(" + path + ")" + suffix)
 }
